@@ -314,7 +314,7 @@ fn main() {
     let mut trace = std::env::var("HX_TRACE").ok().map(|p| std::io::BufWriter::new(std::fs::File::create(p).unwrap()));
     // optional trace of EVERY run: one event per (program, payload, step) with a digest of everything observable after the step;
     // spec/Trace_C08.tla accepts it iff the digest does not depend on the payload
-    let mut ptrace = std::env::var("HX_PTRACE").ok().map(|p| std::io::BufWriter::new(std::fs::File::create(p).unwrap()));
+    let mut ptrace = std::env::var("HX_PTRACE").ok().map(|p| std::io::BufWriter::new(std::fs::File::create(p.replace("%CFG%", &hx::cfg_name())).unwrap()));
     read_cases(&args[1], "CASE", |c| {
         if c["fam"] != "hid" { return; }
         seen += 1;
